@@ -18,9 +18,9 @@ MANIFEST = {
             "derived dependency-order theorems. Executed on every run: the extracted checker on the structures returned by p?gstrf "
             "for 4 precisions x nprocs{1,2,4,8} x refactorization x workspace modes, and model-vs-C equality for fixupL/countnz.",
     "note": "That every complete run ends in wf_LU (final_state_wf) is not a theorem here (it needs the worker/scheduler model); "
-            "it is enforced at run time by the proved checker on every returned factor. fixupL/countnz are tied K-exact on synthetic "
+            "it is enforced at run time by the proved checker on every returned factor. fixupL and countnz are RE-TRANSLATED from util.c on every run (coq/WellFormedGen.v) and proved equal to the models for every n, perm_r and image, with no hypotheses (WellFormedTie.v; c09_source_fixupL_countnz_is_model); they are also tied K-exact on synthetic "
             "images and on the pre-finalize GlobalLU image of every real run (hook H13).",
-    "technique": "Coq proof (sound+complete checker, list-transformer models) + extracted checker on real factors + K-exact on util.c",
+    "technique": "Coq proof (sound+complete checker, list-transformer models proved equal to a translation of the C source regenerated on every run) + extracted checker on real factors + K-exact on util.c",
 }
 
 PRECS = {"d": "-DPREC_D", "s": "-DPREC_S", "c": "-DPREC_C", "z": "-DPREC_Z"}
